@@ -317,8 +317,12 @@ def b_dual(tier, seed):
     envs = [dict(pt, z=Fraction(4, 9), math=math, log=math.log) for pt in POINTS]
     for pt in envs:
         pt["a"] = list(pt["a"]) + [Fraction(6)]
+    # polynomial nodes alone are also evaluated where their base is 0 (every term of the derivative must be defined there)
+    zero_env = dict(x=0, y=0, z=Fraction(4, 9), a=[0, Fraction(1, 2), Fraction(6)], math=math, log=math.log)
     for ei, e in enumerate(exprs):
         lv = _level(e)
+        from pymbolic.polynomial import Polynomial as _Poly
+        envs = envs[:4] + ([zero_env, dict(zero_env, y=Fraction(3, 2))] if isinstance(e, _Poly) and not isinstance(e.base, p.Sum) else [])
         for wrt in (wrts if ei % 3 == 0 or tier == "thorough" else wrts[:5]):
             wnode = p.Variable(wrt) if isinstance(wrt, str) else wrt
             for flag in flags:
